@@ -15,7 +15,11 @@ Require Import GenTypes.
 Local Open Scope string_scope.
 Local Open Scope list_scope.
 
-Inductive bound := BVal (v : Z) | BRef (t : N) | BCRef (t : N).
+Inductive bound :=
+| BVal (v : Z) | BRef (t : N) | BCRef (t : N)
+| BFunMem (t : N)       (* a functor bound by value: sigc::mem_fun(obj_t, &T::m0) *)
+| BSlotMem (t : N)      (* a slot bound by value: sigc::slot<long()>(sigc::mem_fun(obj_t, &T::m0)) *)
+| BTrackVal.            (* an object of a trackable-derived class bound by value (the copy inside the functor is tracked, no outside object is) *)
 Inductive pkind := PVal | PRef | PCRef.
 
 Inductive fexpr :=
@@ -70,7 +74,7 @@ Fixpoint slookup {A} (k : string) (l : list (string * A)) : option A :=
 (* tracking *)
 
 Definition bound_refs_doc (b : bound) : list N :=
-  match b with BVal _ => [] | BRef t => [t] | BCRef t => [t] end.
+  match b with BVal _ => [] | BRef t => [t] | BCRef t => [t] | BFunMem t => [t] | BSlotMem t => [t] | BTrackVal => [] end.
 
 Fixpoint refs (e : fexpr) : list N :=
   match e with
@@ -103,8 +107,17 @@ Definition reaches_bound_argument (T : vtable) : bool :=
   existsb (fun v => match v with VVisitMethod => true | _ => false end) (visits_of T "bound_argument")
   && reaches_limit_reference T.
 
+(* what visiting a bound_mem_functor reaches (a functor or a slot bound by value is visited through
+   bound_argument<T>::visit() like any other bound value) *)
+Definition mem_reach (T : vtable) (t : N) : list N :=
+  flat_map (fun v => match v with
+                     | VMember m => if String.eqb m "obj_" && reaches_limit_reference T then [t] else []
+                     | _ => []
+                     end) (visits_of T "bound_mem_functor").
 Definition bound_refs (T : vtable) (b : bound) : list N :=
-  if reaches_bound_argument T then bound_refs_doc b else [].
+  if reaches_bound_argument T
+  then match b with BFunMem t | BSlotMem t => mem_reach T t | _ => bound_refs_doc b end
+  else [].
 
 Fixpoint visited (T : vtable) (e : fexpr) : list N :=
   let vs := visits_of T (visitor_key e) in
@@ -241,6 +254,7 @@ Definition bound_arg (b : bound) : arg :=
   | BVal v => mkArg v ICopy            (* T_type& to the copy stored in the bind_functor *)
   | BRef t => mkArg 0 (IBoundRef t)
   | BCRef t => mkArg 0 (IBoundRef t)
+  | BFunMem _ | BSlotMem _ | BTrackVal => mkArg 0 ICopy      (* handed to the target as the stored copy; the target does not call it *)
   end.
 Definition bound_result (b : bound) : Z := match b with BVal v => v | _ => 0%Z end.
 
